@@ -54,562 +54,10 @@ KEYSIG = ["strategy_name", "dataset_name", "cv_fold", "train_or_test"]
 ITEM = {("csv", "train"): "ITrain", ("csv", "test"): "ITest", ("pickle", "train"): "IFit"}
 
 
-def _u(n):
-    return ast.unparse(n)
-
-
-def _fail(msg, node=None):
-    where = ""
-    if isinstance(node, ast.AST):
-        where = " [line %s: %s]" % (getattr(node, "lineno", "?"), _u(node)[:120])
-    elif node is not None:
-        where = " [%s]" % show(node)[:200]
-    raise Unsupported("orch_c19: %s%s" % (msg, where))
-
-
-# ------------------------------------------------------------------------------------------------
-# terms
-
-def C(v):
-    return ("const", v)
-
-
-SLICE_ALL = ("slice", C(None), C(None), C(None))
-TRUE, FALSE, NONE = C(True), C(False), C(None)
-
-
-def show(t):
-    if not isinstance(t, tuple) or not t:
-        return repr(t)
-    k = t[0]
-    if k == "const":
-        return repr(t[1])
-    if k in ("param", "global", "loopvar", "role", "flag"):
-        return t[1]
-    if k == "self":
-        return "self"
-    if k == "proj":
-        return "%s#%d" % (show(t[1]), t[2])
-    if k == "attr":
-        return "%s.%s" % (show(t[1]), t[2])
-    if k == "call":
-        return "%s(%s)" % (show(t[1]), ", ".join([show(a) for a in t[2]] + ["%s=%s" % (n, show(v)) for n, v in t[3]]))
-    if k == "sub":
-        return "%s[%s]" % (show(t[1]), show(t[2]))
-    if k in ("tuple", "list", "genkey"):
-        return "%s(%s)" % ("" if k != "genkey" else "key", ", ".join(show(x) for x in t[1]))
-    return "%s(%s)" % (k, ", ".join(show(x) if isinstance(x, tuple) else repr(x) for x in t[1:]))
-
-
-def mk_not(x):
-    if x[0] == "not":
-        return x[1]
-    if x[0] == "const" and isinstance(x[1], bool):
-        return C(not x[1])
-    if x[0] == "cmp" and x[1] in ("in", "notin"):
-        return ("cmp", "notin" if x[1] == "in" else "in", x[2], x[3])
-    return ("not", x)
-
-
-# ------------------------------------------------------------------------------------------------
-# execution trees:  ("eff", effect, next) | ("if", cond, then, else) | ("ret", value)
-#                   | ("cont",) | ("raise", value) | ("end",)
-
-
-class Ctx:
-    """one module + one class: where helpers are looked up"""
-
-    def __init__(self, mod, clsname=None, primitives=(), hook=None):
-        self.mod = mod
-        self.functions = {n.name: n for n in mod.body if isinstance(n, ast.FunctionDef)}
-        self.methods = {}
-        self.static = set()
-        if clsname:
-            cls = [n for n in mod.body if isinstance(n, ast.ClassDef) and n.name == clsname]
-            if len(cls) != 1:
-                _fail("expected exactly one class %s" % clsname)
-            for n in cls[0].body:
-                if isinstance(n, ast.FunctionDef):
-                    if n.name in self.methods:
-                        _fail("method %s.%s defined twice" % (clsname, n.name))
-                    self.methods[n.name] = n
-                    if any(_u(d) == "staticmethod" for d in n.decorator_list):
-                        self.static.add(n.name)
-        self.consts = {}
-        for n in mod.body:
-            if isinstance(n, ast.Assign) and len(n.targets) == 1 and isinstance(n.targets[0], ast.Name):
-                try:
-                    v = ast.literal_eval(n.value)
-                except Exception:
-                    continue
-                self.consts[n.targets[0].id] = _lit(v)
-        self.primitives = set(primitives)
-        self.hook = hook or (lambda t: t)
-        self.depth = 0
-
-    def method(self, name):
-        if name not in self.methods:
-            _fail("missing method %s" % name)
-        return self.methods[name]
-
-
-def _lit(v):
-    if isinstance(v, (tuple, list)):
-        return ("tuple" if isinstance(v, tuple) else "list", tuple(_lit(x) for x in v))
-    return C(v)
-
-
-def _params(fn, drop_self):
-    a = fn.args
-    if a.vararg or a.kwarg or a.kwonlyargs or a.posonlyargs:
-        _fail("unsupported parameter list of %s" % fn.name, fn)
-    names = [x.arg for x in a.args]
-    defaults = dict(zip(names[len(names) - len(a.defaults):], a.defaults))
-    if drop_self:
-        names = names[1:]
-    return names, defaults
-
-
-class Exec:
-    def __init__(self, ctx, loop_binder=None):
-        self.ctx = ctx
-        self.loop_binder = loop_binder       # (for statement, iterable term) -> {name: term} or None
-
-    # ---------------------------------------------------------------- expressions
-    def ev(self, e, env, eff):
-        """-> term; calls that are not inlined are appended to `eff` in evaluation order"""
-        h = self.ctx.hook
-        if isinstance(e, ast.Constant):
-            return C(e.value)
-        if isinstance(e, ast.Name):
-            if e.id in env:
-                return env[e.id]
-            if e.id in self.ctx.consts:
-                return self.ctx.consts[e.id]
-            return ("global", e.id)
-        if isinstance(e, ast.Attribute):
-            return h(("attr", self.ev(e.value, env, eff), e.attr))
-        if isinstance(e, (ast.Tuple, ast.List)):
-            items = []
-            for x in e.elts:
-                if isinstance(x, ast.Starred):
-                    v = self.ev(x.value, env, eff)
-                    if v[0] not in ("tuple", "list"):
-                        _fail("cannot spread a value of unknown length", x)
-                    items.extend(v[1])
-                else:
-                    items.append(self.ev(x, env, eff))
-            return ("tuple" if isinstance(e, ast.Tuple) else "list", tuple(items))
-        if isinstance(e, ast.Dict):
-            if any(k is None for k in e.keys):
-                _fail("dict unpacking", e)
-            return ("dict", tuple((self.ev(k, env, eff), self.ev(v, env, eff)) for k, v in zip(e.keys, e.values)))
-        if isinstance(e, ast.JoinedStr):
-            parts = []
-            for p in e.values:
-                if isinstance(p, ast.FormattedValue):
-                    v = self.ev(p.value, env, eff)
-                    if v[0] == "call" and v[1] == ("global", "str") and len(v[2]) == 1 and not v[3]:
-                        v = v[2][0]                      # f"{str(x)}" == f"{x}"
-                    parts.append(("fmt", v))
-                else:
-                    parts.append(self.ev(p, env, eff))
-            return ("fstr", tuple(parts))
-        if isinstance(e, ast.BinOp):
-            a, b = self.ev(e.left, env, eff), self.ev(e.right, env, eff)
-            return h(("add", a, b) if isinstance(e.op, ast.Add) else ("binop", type(e.op).__name__, a, b))
-        if isinstance(e, ast.UnaryOp) and isinstance(e.op, ast.Not):
-            return mk_not(self.ev(e.operand, env, eff))
-        if isinstance(e, ast.BoolOp):
-            # (short circuit: operands of the modelled conditions are pure reads)
-            k = "and" if isinstance(e.op, ast.And) else "or"
-            vals = []
-            for x in e.values:
-                v = self.ev(x, env, eff)
-                vals.extend(v[1] if v[0] == k else [v])
-            return (k, tuple(vals))
-        if isinstance(e, ast.Compare) and len(e.ops) == 1:
-            op = {ast.In: "in", ast.NotIn: "notin", ast.Eq: "eq", ast.NotEq: "ne", ast.Is: "is",
-                  ast.IsNot: "isnot", ast.Lt: "lt", ast.LtE: "le", ast.Gt: "gt", ast.GtE: "ge"}.get(type(e.ops[0]))
-            if op is None:
-                _fail("comparison", e)
-            return ("cmp", op, self.ev(e.left, env, eff), self.ev(e.comparators[0], env, eff))
-        if isinstance(e, ast.IfExp):
-            return ("ite", self.ev(e.test, env, eff), self.ev(e.body, env, eff), self.ev(e.orelse, env, eff))
-        if isinstance(e, ast.Slice):
-            f = lambda x: NONE if x is None else self.ev(x, env, eff)
-            return ("slice", f(e.lower), f(e.upper), f(e.step))
-        if isinstance(e, ast.Subscript):
-            return h(("sub", self.ev(e.value, env, eff), self.ev(e.slice, env, eff)))
-        if isinstance(e, (ast.ListComp, ast.GeneratorExp)):
-            return self._comp(e, env, eff)
-        if isinstance(e, ast.Call):
-            return self._call(e, env, eff)
-        if isinstance(e, ast.Starred):
-            _fail("starred expression", e)
-        _fail("unsupported expression", e)
-
-    def _comp(self, e, env, eff):
-        if len(e.generators) != 1 or e.generators[0].ifs or e.generators[0].is_async:
-            return ("opaque", ast.dump(e))
-        g = e.generators[0]
-        it = self.ev(g.iter, env, eff)
-        if it[0] not in ("tuple", "list"):
-            return ("comp", ast.dump(e.elt), ast.dump(g.target), it)
-        out = []
-        for item in it[1]:
-            e2 = dict(env)
-            self._bind_target(g.target, item, e2)
-            out.append(self.ev(e.elt, e2, eff))
-        return ("list", tuple(out))
-
-    def _bind_target(self, tgt, val, env):
-        if isinstance(tgt, ast.Name):
-            env[tgt.id] = val
-        elif isinstance(tgt, (ast.Tuple, ast.List)):
-            if val[0] in ("tuple", "list") and len(val[1]) == len(tgt.elts):
-                for t, v in zip(tgt.elts, val[1]):
-                    self._bind_target(t, v, env)
-            else:
-                for i, t in enumerate(tgt.elts):
-                    self._bind_target(t, ("proj", val, i, len(tgt.elts)), env)
-        else:
-            _fail("assignment target", tgt)
-
-    def _args(self, e, env, eff):
-        args = []
-        for a in e.args:
-            if isinstance(a, ast.Starred):
-                v = self.ev(a.value, env, eff)
-                if v[0] not in ("tuple", "list"):
-                    _fail("cannot spread an argument list of unknown length", e)
-                args.extend(v[1])
-            else:
-                args.append(self.ev(a, env, eff))
-        kws = []
-        for kw in e.keywords:
-            if kw.arg is None:
-                _fail("**kwargs in a call", e)
-            kws.append((kw.arg, self.ev(kw.value, env, eff)))
-        return args, kws
-
-    def _helper_of(self, e):
-        """the FunctionDef to inline for this call, or None"""
-        f = e.func
-        c = self.ctx
-        if isinstance(f, ast.Attribute) and isinstance(f.value, ast.Name) and f.value.id == "self" \
-                and f.attr in c.methods and f.attr not in c.primitives:
-            return c.methods[f.attr], f.attr not in c.static
-        if isinstance(f, ast.Name) and f.id in c.functions and f.id not in c.primitives:
-            return c.functions[f.id], False
-        return None
-
-    def bind_call(self, fn, drop_self, args, kws, env, eff, what):
-        names, defaults = _params(fn, drop_self)
-        out = {}
-        if len(args) > len(names):
-            _fail("%s: too many positional arguments" % what, fn)
-        for n, a in zip(names, args):
-            out[n] = a
-        for n, v in kws:
-            if n not in names or n in out:
-                _fail("%s: keyword %s" % (what, n), fn)
-            out[n] = v
-        for n in names:
-            if n not in out:
-                if n not in defaults:
-                    _fail("%s: missing argument %s" % (what, n), fn)
-                out[n] = self.ev(defaults[n], {}, eff)
-        return out
-
-    def _call(self, e, env, eff):
-        hp = self._helper_of(e)
-        if hp is not None:
-            node = self.call_helper(hp, e, env, eff, lambda v: ("ret", v))
-            return self._flatten(node, eff, e)
-        fv = self.ev(e.func, env, eff)
-        args, kws = self._args(e, env, eff)
-        t = self.ctx.hook(("call", fv, tuple(args), tuple(sorted(kws))))
-        if t[0] == "call":
-            eff.append(t)
-        elif t[0] == "traced":           # hook: a modelled read/operation with a value of its own
-            eff.append(t[1])
-            t = t[2]
-        return t
-
-    def call_helper(self, hp, e, env, eff, kr):
-        fn, drop_self = hp
-        if self.ctx.depth > 6:
-            _fail("helper nesting too deep (recursion?)", e)
-        args, kws = self._args(e, env, eff)
-        env2 = self.bind_call(fn, drop_self, args, kws, env, eff, fn.name)
-        if drop_self:
-            env2["self"] = env.get("self", ("self",))
-        self.ctx.depth += 1
-        try:
-            return self.run(_body(fn), env2, lambda _e: kr(NONE), kr)
-        finally:
-            self.ctx.depth -= 1
-
-    def _flatten(self, node, eff, where):
-        """helper used as a value: straight-line effects then a value, or a pure conditional"""
-        while node[0] == "eff":
-            eff.append(node[1])
-            node = node[2]
-        if node[0] == "ret":
-            return node[1]
-        if node[0] == "if":
-            a, b = self._pure(node[2], where), self._pure(node[3], where)
-            return simplify_ite(node[1], a, b)
-        _fail("helper does not return a value here", where)
-
-    def _pure(self, node, where):
-        if node[0] == "ret":
-            return node[1]
-        if node[0] == "if":
-            return simplify_ite(node[1], self._pure(node[2], where), self._pure(node[3], where))
-        _fail("a helper with conditional effects is used inside an expression", where)
-
-    # ---------------------------------------------------------------- statements
-    def run(self, stmts, env, kf, kr, kc=None):
-        """execute `stmts`; kf(env) continues after falling off the end, kr(value) after `return`,
-        kc(env) after `continue` (None: the symbolic loop's next iteration, terminal ("cont",))"""
-        if not stmts:
-            return kf(env)
-        s, rest = stmts[0], stmts[1:]
-        nxt = lambda e2: self.run(rest, e2, kf, kr, kc)
-        if isinstance(s, ast.Expr) and isinstance(s.value, ast.Constant):
-            return nxt(env)
-        if isinstance(s, ast.Pass):
-            return nxt(env)
-        if isinstance(s, (ast.Import, ast.ImportFrom)):
-            return nxt(env)
-        if isinstance(s, ast.Expr) and isinstance(s.value, ast.Call) and self._helper_of(s.value):
-            eff = []
-            node = self.call_helper(self._helper_of(s.value), s.value, env, eff, lambda v: nxt(env))
-            return _chain(eff, node)
-        if isinstance(s, ast.Expr) and isinstance(s.value, (ast.Yield, ast.YieldFrom)):
-            if isinstance(s.value, ast.YieldFrom) or s.value.value is None:
-                _fail("yield form", s)
-            eff = []
-            v = self.ev(s.value.value, env, eff)
-            return _chain(eff + [("yield", v)], nxt(env))
-        if isinstance(s, ast.Expr):
-            eff = []
-            self.ev(s.value, env, eff)
-            return _chain(eff, nxt(env))
-        if isinstance(s, ast.Assign):
-            if len(s.targets) != 1:
-                _fail("chained assignment", s)
-            tgt = s.targets[0]
-            if isinstance(s.value, ast.Call) and self._helper_of(s.value) and isinstance(tgt, (ast.Name, ast.Tuple)):
-                eff = []
-
-                def k(v, tgt=tgt):
-                    e2 = dict(env)
-                    self._bind_target(tgt, v, e2)
-                    return nxt(e2)
-                node = self.call_helper(self._helper_of(s.value), s.value, env, eff, k)
-                return _chain(eff, node)
-            eff = []
-            v = self.ev(s.value, env, eff)
-            if isinstance(tgt, (ast.Name, ast.Tuple, ast.List)):
-                e2 = dict(env)
-                self._bind_target(tgt, v, e2)
-                return _chain(eff, nxt(e2))
-            if isinstance(tgt, ast.Attribute):
-                eff.append(("setattr", self.ev(tgt.value, env, eff), tgt.attr, v))
-                return _chain(eff, nxt(env))
-            if isinstance(tgt, ast.Subscript):
-                eff.append(("setitem", self.ev(tgt.value, env, eff), self.ev(tgt.slice, env, eff), v))
-                return _chain(eff, nxt(env))
-            _fail("assignment target", s)
-        if isinstance(s, ast.AugAssign):
-            eff = []
-            v = self.ev(s.value, env, eff)
-            if isinstance(s.target, ast.Attribute):
-                eff.append(("augattr", self.ev(s.target.value, env, eff), s.target.attr, type(s.op).__name__, v))
-                return _chain(eff, nxt(env))
-            if isinstance(s.target, ast.Name):
-                e2 = dict(env)
-                e2[s.target.id] = ("binop", type(s.op).__name__, env.get(s.target.id, ("global", s.target.id)), v)
-                return _chain(eff, nxt(e2))
-            _fail("augmented assignment target", s)
-        if isinstance(s, ast.Return):
-            if s.value is not None and isinstance(s.value, ast.Call) and self._helper_of(s.value):
-                eff = []
-                node = self.call_helper(self._helper_of(s.value), s.value, env, eff, kr)
-                return _chain(eff, node)
-            eff = []
-            v = NONE if s.value is None else self.ev(s.value, env, eff)
-            return _chain(eff, kr(v))
-        if isinstance(s, ast.Raise):
-            eff = []
-            v = NONE if s.exc is None else self.ev_quiet(s.exc, env)
-            return _chain(eff, ("raise", v))
-        if isinstance(s, ast.Continue):
-            return kc(env) if kc else ("cont",)
-        if isinstance(s, ast.Break):
-            _fail("break", s)
-        if isinstance(s, ast.If):
-            eff = []
-            c = self.ev(s.test, env, eff)
-            if c == TRUE:
-                return _chain(eff, self.run(list(s.body) + rest, env, kf, kr, kc))
-            if c == FALSE:
-                return _chain(eff, self.run(list(s.orelse) + rest, env, kf, kr, kc))
-            a = self.run(list(s.body), env, nxt, kr, kc)
-            b = self.run(list(s.orelse), env, nxt, kr, kc)
-            return _chain(eff, ("if", c, a, b))
-        if isinstance(s, ast.For):
-            if s.orelse:
-                _fail("for/else", s)
-            eff = []
-            it = self.ev(s.iter, env, eff)
-            if it[0] in ("tuple", "list") and len(it[1]) <= 8:
-                # a loop over a literal tuple / list (its items may be any values): unroll
-                unrolled = [(s.target, item) for item in it[1]]
-                return _chain(eff, self._unroll(unrolled, list(s.body), rest, env, kf, kr, kc))
-            e2 = dict(env)
-            lv = ("loopvar", _u(s.target), id(s))
-            bound = self.loop_binder(s, it) if self.loop_binder else None
-            if bound is not None:
-                e2.update(bound)
-            else:
-                self._bind_target(s.target, lv, e2)
-            body = self.run(list(s.body), e2, lambda _e: ("end",), kr)
-            # names assigned in the body are unknown afterwards
-            e3 = dict(env)
-            for n in ast.walk(s):
-                if isinstance(n, ast.Name) and isinstance(n.ctx, ast.Store):
-                    e3[n.id] = ("afterloop", n.id, id(s))
-            eff.append(("for", it, _target_names(s.target), body, lv))
-            return _chain(eff, nxt(e3))
-        _fail("unsupported statement", s)
-
-    def _unroll(self, items, body, rest, env, kf, kr, kc):
-        if not items:
-            return self.run(rest, env, kf, kr, kc)
-        (tgt, item), more = items[0], items[1:]
-        e2 = dict(env)
-        self._bind_target(tgt, item, e2)
-        again = lambda e3: self._unroll(more, body, rest, e3, kf, kr, kc)
-        return self.run(body, e2, again, kr, again)
-
-    def ev_quiet(self, e, env):
-        """value of an expression whose calls are not traced (exception constructors, messages)"""
-        try:
-            return self.ev(e, env, [])
-        except Unsupported:
-            return ("opaque", _u(e))
-
-    def run_function(self, fn, env):
-        return self.run(_body(fn), env, lambda _e: ("ret", NONE), lambda v: ("ret", v))
-
-
-def _target_names(t):
-    if isinstance(t, ast.Name):
-        return t.id
-    if isinstance(t, (ast.Tuple, ast.List)):
-        return tuple(_target_names(x) for x in t.elts)
-    _fail("loop target", t)
-
-
-def _chain(eff, node):
-    for e in reversed(eff):
-        node = ("eff", e, node)
-    return node
-
-
-def _body(fn):
-    return list(fn.body)
-
-
-def is_boolish(c):
-    return c[0] in ("cmp", "not", "and", "or") or c in (TRUE, FALSE) or \
-        (c[0] == "call" and show(c[1]) in ("os.path.isfile", "os.path.exists", "os.path.isdir", "isinstance", "hasattr")) \
-        or c[0] in ("flag", "check")
-
-
-def simplify_ite(c, a, b):
-    if a == b:
-        return a
-    if a == TRUE and b == FALSE and is_boolish(c):
-        return c
-    if a == FALSE and b == TRUE and is_boolish(c):
-        return mk_not(c)
-    return ("ite", c, a, b)
-
-
-# ------------------------------------------------------------------------------------------------
-# walking execution trees
-
-NEUTRAL_CALLS = {"pd.Timestamp.now", "log.warn", "log.warning", "log.info", "log.debug", "os.path.join",
-                 "os.path.exists", "os.makedirs", "str", "np.asarray", "list", "set", "len", "warn", "warnings.warn"}
-
-
-def is_neutral(eff, extra=()):
-    if eff[0] == "call":
-        n = show(eff[1])
-        return n in NEUTRAL_CALLS or n in extra
-    return False
-
-
-def collapse(node):
-    """merge branches that only differ in the value they return into one conditional value"""
-    if node[0] == "eff":
-        return ("eff", node[1], collapse(node[2]))
-    if node[0] == "if":
-        a, b = collapse(node[2]), collapse(node[3])
-        if a[0] == "ret" and b[0] == "ret":
-            return ("ret", simplify_ite(node[1], a[1], b[1]))
-        return ("if", node[1], a, b)
-    return node
-
-
-def leaves(node, path=()):
-    """all (effects, conditions, terminal) paths of a tree"""
-    if node[0] == "eff":
-        for e, c, t in leaves(node[2], path):
-            yield [node[1]] + e, c, t
-    elif node[0] == "if":
-        for e, c, t in leaves(node[2], path):
-            yield e, [(node[1], True)] + c, t
-        for e, c, t in leaves(node[3], path):
-            yield e, [(node[1], False)] + c, t
-    else:
-        yield [], [], node
-
-
-def straight(node, what, neutral=()):
-    """a tree without branching -> (effects without the neutral ones, terminal)"""
-    effs = []
-    while node[0] == "eff":
-        if not is_neutral(node[1], neutral):
-            effs.append(node[1])
-        node = node[2]
-    if node[0] == "if":
-        _fail("%s: unexpected branching on %s" % (what, show(node[1])))
-    return effs, node
-
-
-def fn_of(term):
-    return show(term[1]) if term[0] == "call" else None
-
-
-def kwget(term, sig, what):
-    """arguments of a call term bound against parameter names"""
-    out = {}
-    if len(term[2]) > len(sig):
-        _fail("%s: too many positional arguments" % what, term)
-    for n, a in zip(sig, term[2]):
-        out[n] = a
-    for n, v in term[3]:
-        if n not in sig or n in out:
-            _fail("%s: keyword %s" % (what, n), term)
-        out[n] = v
-    return out
-
+from .symexec_c19 import (C, FALSE, NONE, SLICE_ALL, TRUE, Ctx, Exec, _body, _chain, _fail, _params,  # noqa: F401
+                          _target_names, _u, collapse, fn_of, is_neutral, kwget, leaves, mk_not, show,
+                          simplify_ite, straight)
+from . import symexec_c19
 
 # ------------------------------------------------------------------------------------------------
 # Orchestrator._iter
@@ -1251,6 +699,7 @@ def _back_term(back):
 
 
 def translate(repo):
+    symexec_c19.TAG[0] = "orch_c19"
     mods = {}
     for rel in (ORCH, RES, BASE):
         with open(os.path.join(repo, rel)) as fh:
